@@ -414,8 +414,9 @@ class Program:
     def __init__(self, cfg, d):
         self.cfg = cfg
         self.raw = d
-        from . import inline
+        from . import inline, loopidiom
         self.inlined = inline.run(d)
+        self.loop_idioms = loopidiom.run(d)
         self.fns = [Fn(self, f) for f in d["fns"]]
         self.by_path = {}
         for f in self.fns:
